@@ -25,8 +25,74 @@ pub struct ReqCase {
     pub remove_from_request: bool,
 }
 
+#[derive(Clone, Debug, Serialize, Deserialize)]
+pub struct HostCase {
+    pub plan: Plan,
+    /// 9, 10, 11, 2, 3
+    pub version: u8,
+    pub host_header: bool,
+    /// what the signed list names: 0 neither, 1 host, 2 :authority, 3 both
+    pub listed: u8,
+    pub absolute_target: bool,
+}
+
+/// "host (or :authority) is in the signed list" holds for every HTTP version, request-target form and whether or not a
+/// Host header field is carried (HTTP/2+ servers hand the authority over in the target).
+pub fn check_host_rule(h: &HostCase, cc: &mut CaseCtx) -> CheckResult {
+    let mut p = h.plan.clone();
+    if !h.host_header {
+        p.logical.headers.retain(|(n, _)| n != "host");
+    }
+    p.spec.signed_headers.retain(|x| x != "host" && x != ":authority");
+    if h.listed & 1 != 0 {
+        p.spec.signed_headers.push("host".into());
+    }
+    if h.listed & 2 != 0 {
+        p.spec.signed_headers.push(":authority".into());
+    }
+    p.spec.signed_headers.sort();
+    p.spelling.version = h.version;
+    p.spelling.absolute_form = if h.absolute_target { 1 + h.version % 3 } else { 0 };
+    let Ok(built) = p.build() else {
+        cc.class("unsignable");
+        return Ok(());
+    };
+    let (a, o) = (analyze(&built.case), exec::run(&built.case));
+    if let exec::Res::Unrepresentable(_) = o.res {
+        return Ok(());
+    }
+    if !a.verdict().is_specified() {
+        cc.unspecified = true;
+        return check_total(&o);
+    }
+    cc.class(match h.listed {
+        0 => "neither-listed",
+        1 => "host-listed",
+        2 => "authority-listed",
+        _ => "both-listed",
+    });
+    cc.class_if(!h.host_header, "no-host-header-field");
+    cc.class_if(h.version == 2 || h.version == 3, "http2-or-3");
+    cc.nontrivial(digest_of(&[&built.case.req.digest().to_le_bytes(), &[h.version, h.host_header as u8, h.listed, h.absolute_target as u8]]));
+    if !h.host_header || h.listed == 0 {
+        cc.sample(json!({"version": h.version, "host_header_field": h.host_header, "signed_list": p.spec.signed_headers, "target": built.case.req.uri.chars().take(60).collect::<String>(), "model": a.verdict().short(), "crate": o.res.short()}));
+    }
+    check_against_model(&a, &o).map_err(|f| Failure::new(&format!("host-rule:{}", f.sig), format!("HTTP version code {}, Host header field {}, signed list {:?}: {}", h.version, if h.host_header { "present" } else { "absent" }, p.spec.signed_headers, f.msg)))
+}
+
 pub fn subs() -> Vec<Box<dyn AnySub>> {
     vec![
+        Box::new(Sub {
+            name: "host-rule-across-http-versions",
+            quick: 10_000,
+            thorough: 150_000,
+            strat: || {
+                (plan(quiet_opts()), prop_oneof![Just(9u8), Just(10), Just(11), Just(2), Just(3)], any::<bool>(), 0u8..4, any::<bool>())
+                    .prop_map(|(plan, version, host_header, listed, absolute_target)| HostCase { plan, version, host_header, listed, absolute_target })
+                    .boxed()
+            },
+            check: check_host_rule,
+        }),
         Box::new(Sub {
             name: "requirements-e2e",
             quick: 40_000,
